@@ -497,9 +497,9 @@ func init() {
 		Level: "fault_enumeration",
 		Cases: func(tier string) int {
 			if tier == "thorough" {
-				return 200000
+				return 4000000
 			}
-			return 12000
+			return 100000
 		},
 		Run:  runC19,
 		Rule: "each case = seeded list of 1..5 Maps (C02 XML domain with XMLEscapeChars(true), or C06 JSON domain) x file form (compact/indent, drawn prefix/indent, Raw or not) written through the real Maps.*File writers to a simulated disk and read back under a drawn legal delivery schedule (F1), followed by one fault dimension: a crash during the write at EVERY byte offset of the file (enumerated for files <= 400 bytes; torn write reported or silently lost), a stored byte flipped at rest, EIO at a drawn offset while reading, stat/open failure, non-regular or missing file, create failure; one case in eight is a gob/Copy round trip with every truncation of the gob bytes. Non-trivial = a fault actually fired (torn write cut the file, flipped byte read, EIO delivered, open refused, gob truncated); distinct = distinct (file content, fault kind, fault position).",
